@@ -12,6 +12,7 @@ META_EXCLUDE.add('success_channels')
 META_EXCLUDE.add('complete_channels')
 META_EXCLUDE.add('cause')  # completion tracking of the dispatcher
 META_EXCLUDE.add('effects')
+META_EXCLUDE.add('_failed')  # failure remembered by the dispatcher while handlers are suspended
 
 
 def _dumps(data):
